@@ -187,6 +187,22 @@ fn observe(a: &VExpr, b: &VExpr, c: &VExpr) -> Value {
     // the laws, each evaluated with the implementation's own `==`
     let laws = guarded(|| {
         let (va, vb, vc) = (a.eval(), b.eval(), c.eval());
+        // entries with amount zero are immaterial: a value and the same value after a trip through + (which drops
+        // them) answer every question alike, on either side of it
+        let zero_immaterial = {
+                let na = va.clone() + CanonicalAssets::empty();
+                let nb = vb.clone() + CanonicalAssets::empty();
+                na == va
+                    && va.is_empty() == na.is_empty()
+                    && va.is_empty_or_negative() == na.is_empty_or_negative()
+                    && va.is_only_naked() == na.is_only_naked()
+                    && va.contains_some(&vb) == na.contains_some(&vb)
+                    && va.contains_total(&vb) == na.contains_total(&vb)
+                    && va.contains_some(&vb) == va.contains_some(&nb)
+                    && va.contains_total(&vb) == va.contains_total(&nb)
+                    && vc.contains_some(&vb) == vc.contains_some(&nb)
+                    && vc.contains_total(&vb) == vc.contains_total(&nb)
+            };
         json!({
             "comm": va.clone() + vb.clone() == vb.clone() + va.clone(),
             "assoc": (va.clone() + vb.clone()) + vc.clone() == va.clone() + (vb.clone() + vc.clone()),
@@ -197,6 +213,7 @@ fn observe(a: &VExpr, b: &VExpr, c: &VExpr) -> Value {
             "neg_a": dump(&(-va.clone())),
             "rt_a": dump(&exprs_roundtrip(&va)),
             "rt_eq": exprs_roundtrip(&va) == va,
+            "zero_immaterial": zero_immaterial,
         })
     });
     let mut base = base;
